@@ -13,3 +13,4 @@ INVARIANT InvC31Tables
 INVARIANT InvC31Available
 INVARIANT InvC31Sector
 INVARIANT InvC31Diag
+INVARIANT InvC31Ref
